@@ -1657,11 +1657,16 @@ class Parallel(Logger):
         # was very quick and its callback already dispatched all the
         # remaining jobs.
         self._iterating = False
-        if self.dispatch_one_batch(iterator):
-            self._iterating = self._original_iterator is not None
+        # Hold the lock during the whole initial dispatch: a completion
+        # callback running concurrently would otherwise slice the next batches
+        # into the look-ahead queue, from which this loop would dispatch them
+        # on top of the pre-dispatched ones.
+        with self._lock:
+            if self.dispatch_one_batch(iterator):
+                self._iterating = self._original_iterator is not None
 
-        while self.dispatch_one_batch(iterator):
-            pass
+            while self.dispatch_one_batch(iterator):
+                pass
 
         if pre_dispatch == "all":
             # The iterable was consumed all at once by the above for loop.
